@@ -5,11 +5,15 @@ import (
 	"os"
 	"path/filepath"
 	"regexp"
+	"runtime"
 	"strings"
+	"sync"
+	"sync/atomic"
 	"testing"
 	"time"
 
 	"github.com/honeytrap/honeytrap/event"
+	"github.com/honeytrap/honeytrap/pushers"
 	"pgregory.net/rapid"
 
 	"verif/lab"
@@ -372,6 +376,421 @@ func TestIndependence(t *testing.T) {
 				rt.Fatalf("%v", err)
 			}
 			r.Fail(rt, "TestIndependence", indepCase{c, ch}, "%v", err)
+		}
+	})
+}
+
+// ---------------------------------------------------------------------------
+// Schedule dimension: the same routing oracle with 2..8 goroutines sending at once.
+// Services send from many connection goroutines concurrently in the real server, and
+// the statement ("an event put on the bus is delivered ... to each configured channel")
+// does not depend on who else is sending. A case is one configuration and, per sender,
+// the list of events it sends in every burst; the case runs many short bursts on one
+// server: all senders are released together, the burst ends when every Send returned,
+// and then each channel must hold exactly what the reference model says for the events
+// of that burst (multiset per sender/event, each sender's events in its sending order,
+// token on every event). Nothing else is sent between the end of a burst and its
+// verdict, so an event still missing after a long silence is lost, not late.
+
+type concCase struct {
+	Channels []string     `json:"channels"`
+	Kinds    []int        `json:"kinds"` // per channel: 0 = lab capture (serialises every event), 1 = light capture (snapshot only)
+	Filters  []filterSpec `json:"filters"`
+	Senders  [][]evSpec   `json:"senders"` // per sender: the events it sends, in order, in every burst
+	Pace     []int        `json:"pace"`    // per sender: 0 = events pre-built, sent back to back; k>0 = event built between sends plus k-1 units of other work
+	Yield    []bool       `json:"yield"`   // per sender: yield the processor after every Send
+	Bursts   int          `json:"bursts"`
+}
+
+// concSettle is how long a channel may stay short of an admitted event, with every Send
+// returned and nothing else being sent, before the event counts as lost. (On a bus that
+// delivers before Send returns this wait is never entered.)
+const concSettle = 3 * time.Second
+
+// lightCapture is a capture channel (type "c06-light", registered through the public
+// channel registry like lab's) that snapshots the event without serialising it: channels
+// in the real server differ widely in how long Send takes, and the time a delivery takes
+// decides how the sends of concurrent senders interleave with the fan-out.
+type lightCapture struct {
+	ID string `toml:"id"`
+
+	mu     sync.Mutex
+	events []lab.Ev
+}
+
+var (
+	lightMu  sync.Mutex
+	lightReg = map[string]*lightCapture{}
+)
+
+func init() {
+	pushers.Register("c06-light", func(options ...func(pushers.Channel) error) (pushers.Channel, error) {
+		c := &lightCapture{}
+		for _, o := range options {
+			o(c)
+		}
+		lightMu.Lock()
+		lightReg[c.ID] = c
+		lightMu.Unlock()
+		return c, nil
+	})
+}
+
+func (c *lightCapture) Send(e event.Event) {
+	ev := lab.Ev{M: event.ToMap(e)}
+	c.mu.Lock()
+	c.events = append(c.events, ev)
+	c.mu.Unlock()
+}
+
+// tail returns the events held from raw position off on, and the new raw length.
+func (c *lightCapture) tail(off int) (tail []lab.Ev, n int) {
+	c.mu.Lock()
+	defer c.mu.Unlock()
+	n = len(c.events)
+	if off < n {
+		tail = append(tail, c.events[off:]...)
+	}
+	return tail, n
+}
+
+// tailOf is the same for a lab capture.
+func tailOf(cap *lab.Capture, off int) (tail []lab.Ev, n int) {
+	cap.WaitFor(0, func(evs []lab.Ev) bool {
+		n = len(evs)
+		if off < n {
+			tail = append(tail, evs[off:]...)
+		}
+		return true
+	})
+	return tail, n
+}
+
+func (c concCase) toml(id string) string {
+	var b strings.Builder
+	fmt.Fprintf(&b, "[listener]\ntype=\"verif-mem\"\nid=%q\n\n", id)
+	fmt.Fprintf(&b, "[service.stub]\ntype=\"verif-plain\"\nid=%q\n\n", id+"-stub")
+	for i, ch := range c.Channels {
+		typ := "verif-capture"
+		if c.Kinds[i] == 1 {
+			typ = "c06-light"
+		}
+		fmt.Fprintf(&b, "[channel.%s]\ntype=%q\nid=%q\n\n", ch, typ, id+"-"+ch)
+	}
+	for _, f := range c.Filters {
+		fmt.Fprintf(&b, "[[filter]]\nchannel=%s\n", tomlList(f.Channels))
+		if f.Categories != nil {
+			fmt.Fprintf(&b, "categories=%s\n", tomlList(f.Categories))
+		}
+		if f.Services != nil {
+			fmt.Fprintf(&b, "services=%s\n", tomlList(f.Services))
+		}
+		b.WriteString("\n")
+	}
+	return b.String()
+}
+
+func mkEventFrom(sender, n int, e evSpec) event.Event {
+	ev := mkEvent(n, e)
+	ev.Store("c06.s", sender)
+	return ev
+}
+
+var workSink uint32
+
+// work is sender-side work between two sends (a service preparing its next event):
+// pure computation, about a quarter of a microsecond per unit.
+func work(units int) {
+	x := uint32(units) + 1
+	for i := 0; i < units*256; i++ {
+		x = x*1664525 + 1013904223
+	}
+	atomic.AddUint32(&workSink, x)
+}
+
+// chanState is what is carried from burst to burst for one channel.
+type chanState struct {
+	off   int            // raw position in the capture up to which everything has been judged
+	last  []int          // per sender: highest event number received so far
+	allow map[[2]int]int // (sender, event number) of earlier bursts -> deliveries the model still permits (range verdicts)
+}
+
+// judgeBurst compares what one channel received since the previous verdict with the model
+// for burst b. short = the only complaint is a missing delivery (it may still arrive);
+// err = definite. An event of an earlier burst may arrive now only as far as the model's
+// range for it was not used up (late is not wrong; duplicated or reordered is).
+// commit() folds the accepted tail into the state.
+func judgeBurst(c concCase, ch string, b int, st *chanState, tail []lab.Ev, exp [][]delivery, tok string) (short string, commit func(), err error) {
+	cnt := make([][]int, len(c.Senders))
+	last := append([]int(nil), st.last...)
+	for s := range c.Senders {
+		cnt[s] = make([]int, len(c.Senders[s]))
+	}
+	lateUsed := map[[2]int]int{}
+	for _, ev := range tail {
+		if ev.Str("sensor") != "c06" {
+			continue // server's own events (heartbeat)
+		}
+		s, ok1 := ev.M["c06.s"].(int)
+		n, ok2 := ev.M["c06.n"].(int)
+		if !ok1 || !ok2 || s < 0 || s >= len(c.Senders) || n < 0 {
+			return "", nil, fmt.Errorf("channel %s received an event that was never sent: %s", ch, ev.Canon())
+		}
+		k := len(c.Senders[s])
+		if n >= (b+1)*k {
+			return "", nil, fmt.Errorf("channel %s received event #%d of sender %d during burst %d, but that sender has only sent up to #%d (invented delivery)", ch, n, s, b, (b+1)*k-1)
+		}
+		if n < last[s] {
+			return "", nil, fmt.Errorf("channel %s received event #%d of sender %d after its event #%d (sending order of one sender violated)", ch, n, s, last[s])
+		}
+		last[s] = n
+		if n < b*k {
+			key := [2]int{s, n}
+			lateUsed[key]++
+			if lateUsed[key] > st.allow[key] {
+				e := c.Senders[s][n%k]
+				d := exp[s][n%k]
+				return "", nil, fmt.Errorf("channel %s received event #%d of sender %d (category=%q service=%q, sent in burst %d) once more during burst %d although it had already received it as often as the reference model allows (%d..%d): duplicate delivery; filters=%s", ch, n, s, e.Category, e.Service, n/k, b, d.lo, d.hi, vlib.JSON(c.Filters))
+			}
+		} else {
+			cnt[s][n-b*k]++
+		}
+		if ev.Str("token") != tok {
+			return "", nil, fmt.Errorf("channel %s: delivered event #%d of sender %d carries token %q, sensor token is %q", ch, n, s, ev.Str("token"), tok)
+		}
+		if ev.SerErr != "" {
+			return "", nil, fmt.Errorf("delivered event does not serialise: %s", ev.SerErr)
+		}
+	}
+	for s := range cnt {
+		for i, got := range cnt[s] {
+			d := exp[s][i]
+			e := c.Senders[s][i]
+			if got > d.hi {
+				return "", nil, fmt.Errorf("channel %s received event #%d of sender %d (category=%q service=%q) %d times in burst %d, reference model says %d..%d; %d concurrent senders, filters=%s", ch, b*len(cnt[s])+i, s, e.Category, e.Service, got, b, d.lo, d.hi, len(c.Senders), vlib.JSON(c.Filters))
+			}
+			if got < d.lo && short == "" {
+				short = fmt.Sprintf("channel %s received event #%d of sender %d (category=%q service=%q) %d times, reference model says %d..%d: sent in burst %d by one of %d concurrent senders", ch, b*len(cnt[s])+i, s, e.Category, e.Service, got, d.lo, d.hi, b, len(c.Senders))
+			}
+		}
+	}
+	commit = func() {
+		st.last = last
+		for key, u := range lateUsed {
+			if st.allow[key] -= u; st.allow[key] <= 0 {
+				delete(st.allow, key)
+			}
+		}
+		for s := range cnt {
+			for i, got := range cnt[s] {
+				if rest := exp[s][i].hi - got; rest > 0 {
+					st.allow[[2]int{s, b*len(cnt[s]) + i}] = rest
+				}
+			}
+		}
+	}
+	return short, commit, nil
+}
+
+func checkConc(c concCase) error {
+	if len(c.Senders) == 0 || len(c.Pace) != len(c.Senders) || len(c.Yield) != len(c.Senders) || len(c.Kinds) != len(c.Channels) || c.Bursts < 1 {
+		return fmt.Errorf("infra: malformed case")
+	}
+	id := lab.NextID()
+	srv, err := lab.Start(id, c.toml(id), true)
+	if err != nil {
+		return fmt.Errorf("infra: %v", err)
+	}
+	defer srv.Stop()
+	stub := lab.GetStub(id + "-stub")
+	if stub == nil || stub.Bus() == nil {
+		return fmt.Errorf("infra: stub service was not given a channel")
+	}
+	bus := stub.Bus()
+	ids := []string{id, id + "-stub"}
+	tails := map[string]func(off int) ([]lab.Ev, int){}
+	for i, ch := range c.Channels {
+		cid := id + "-" + ch
+		ids = append(ids, cid)
+		if c.Kinds[i] == 1 {
+			lightMu.Lock()
+			lc := lightReg[cid]
+			delete(lightReg, cid)
+			lightMu.Unlock()
+			if lc == nil {
+				return fmt.Errorf("infra: light capture channel %s missing", ch)
+			}
+			tails[ch] = lc.tail
+		} else {
+			cap := lab.GetCapture(cid)
+			if cap == nil {
+				return fmt.Errorf("infra: capture channel %s missing", ch)
+			}
+			tails[ch] = func(off int) ([]lab.Ev, int) { return tailOf(cap, off) }
+		}
+	}
+	defer lab.Forget(ids...)
+	tok := token()
+	if len(tok) == 0 {
+		return fmt.Errorf("infra: no token file")
+	}
+	// exp[ch][sender][i]
+	exp := map[string][][]delivery{}
+	for s := range c.Senders {
+		e := expect(c.Channels, c.Filters, c.Senders[s])
+		for _, ch := range c.Channels {
+			exp[ch] = append(exp[ch], e[ch])
+		}
+	}
+	state := map[string]*chanState{}
+	for _, ch := range c.Channels {
+		st := &chanState{allow: map[[2]int]int{}}
+		for range c.Senders {
+			st.last = append(st.last, -1)
+		}
+		state[ch] = st
+	}
+	ns := int32(len(c.Senders))
+	for b := 0; b < c.Bursts; b++ {
+		var ready int32
+		var wg sync.WaitGroup
+		for s := range c.Senders {
+			wg.Add(1)
+			go func(s int) {
+				defer wg.Done()
+				specs := c.Senders[s]
+				base := b * len(specs)
+				var pre []event.Event
+				if c.Pace[s] == 0 {
+					for i, e := range specs {
+						pre = append(pre, mkEventFrom(s, base+i, e))
+					}
+				}
+				// all senders leave the barrier together
+				atomic.AddInt32(&ready, 1)
+				for atomic.LoadInt32(&ready) < ns {
+					runtime.Gosched()
+				}
+				for i, e := range specs {
+					if c.Pace[s] == 0 {
+						bus.Send(pre[i])
+					} else {
+						work(c.Pace[s] - 1)
+						bus.Send(mkEventFrom(s, base+i, e))
+					}
+					if c.Yield[s] {
+						runtime.Gosched()
+					}
+				}
+			}(s)
+		}
+		wg.Wait()
+		// every Send has returned and nothing is being sent: verdict per channel
+		for _, ch := range c.Channels {
+			st := state[ch]
+			tail, n := tails[ch](st.off)
+			short, commit, err := judgeBurst(c, ch, b, st, tail, exp[ch], tok)
+			if err != nil {
+				return err
+			}
+			if short != "" {
+				deadline := time.Now().Add(concSettle)
+				for short != "" && time.Now().Before(deadline) {
+					time.Sleep(10 * time.Millisecond)
+					tail, n = tails[ch](st.off)
+					if short, commit, err = judgeBurst(c, ch, b, st, tail, exp[ch], tok); err != nil {
+						return err
+					}
+				}
+				if short != "" {
+					return fmt.Errorf("%s; still missing after every Send had returned and %v without any further Send (event lost); filters=%s", short, concSettle, vlib.JSON(c.Filters))
+				}
+			}
+			commit()
+			st.off = n
+		}
+	}
+	return nil
+}
+
+func genConc(t *rapid.T) concCase {
+	all := []string{"c1", "c2", "c3"}
+	nch := rapid.IntRange(1, 3).Draw(t, "nch")
+	c := concCase{Channels: all[:nch]}
+	for i := 0; i < nch; i++ {
+		c.Kinds = append(c.Kinds, rapid.IntRange(0, 1).Draw(t, "kind"))
+	}
+	nf := rapid.IntRange(1, 4).Draw(t, "nf")
+	for i := 0; i < nf; i++ {
+		names := rapid.SliceOfNDistinct(rapid.SampledFrom([]string{"c1", "c2", "c3", "ghost"}), 1, 3, rapid.ID[string]).Draw(t, "names")
+		c.Filters = append(c.Filters, filterSpec{Channels: names, Categories: genExprs(t, "cat"), Services: genExprs(t, "svc")})
+	}
+	ns := rapid.IntRange(2, 8).Draw(t, "senders")
+	for s := 0; s < ns; s++ {
+		ne := rapid.IntRange(1, 6).Draw(t, "ne")
+		var evs []evSpec
+		for i := 0; i < ne; i++ {
+			evs = append(evs, evSpec{rapid.SampledFrom(valueAlphabet).Draw(t, "ecat"), rapid.SampledFrom(valueAlphabet).Draw(t, "esvc")})
+		}
+		c.Senders = append(c.Senders, evs)
+		c.Pace = append(c.Pace, rapid.SampledFrom([]int{0, 1, 1, 2, 3, 5, 9, 17, 33}).Draw(t, "pace"))
+		c.Yield = append(c.Yield, rapid.IntRange(0, 3).Draw(t, "yield") == 0)
+	}
+	c.Bursts = rapid.IntRange(20, 400).Draw(t, "bursts")
+	return c
+}
+
+// concNontrivial: at least two senders each send an event some channel must receive.
+func concNontrivial(c concCase) bool {
+	n := 0
+	for s := range c.Senders {
+		e := expect(c.Channels, c.Filters, c.Senders[s])
+		must := false
+		for _, ds := range e {
+			for _, d := range ds {
+				if d.lo > 0 {
+					must = true
+				}
+			}
+		}
+		if must {
+			n++
+		}
+	}
+	return n >= 2
+}
+
+func TestConcurrentSenders(t *testing.T) {
+	r := vlib.Open(prop)
+	var cc concCase
+	if vlib.ReplayCase("TestConcurrentSenders", &cc) {
+		// the case fixes configuration, streams and pacing but not the interleaving of the
+		// senders: repeat it (bounded effort; passing is not a verdict about the schedule)
+		for i := 0; i < 400; i++ {
+			if err := checkConc(cc); err != nil {
+				if strings.HasPrefix(err.Error(), "infra:") {
+					t.Fatalf("%v", err)
+				}
+				r.Violation(t, "TestConcurrentSenders", cc, err.Error())
+				return
+			}
+		}
+		return
+	}
+	r.Rule("schedule dimension: configurations of 1..3 channels (lab capture or a light snapshot-only capture, both through the public registry) and 1..4 filters x 2..8 concurrent senders (each 1..6 events per burst over the value alphabet; pre-built back-to-back, or built inline with 0..32 units of work between sends; optionally yielding after each Send) x 20..400 bursts on one server through the real Run() wiring; all senders of a burst are released together; after every Send of the burst returned each channel must hold exactly the reference model's multiset for that burst, each sender's events in its own sending order, token on every event; a missing delivery is a violation only if it is still missing after 3 s in which nothing is sent; non-trivial = >=2 senders each with an event some channel must receive; distinct by configuration+streams+pacing")
+	r.Rapid(t, "TestConcurrentSenders", r.Pick(400, 4000), func(rt *rapid.T) {
+		c := genConc(rt)
+		fp := ""
+		if concNontrivial(c) {
+			fp = vlib.JSON(c)
+		}
+		r.Case(fmt.Sprintf("concurrent/senders=%d", len(c.Senders)), fp, func() interface{} { return c })
+		r.Label("concurrent/bursts", int64(c.Bursts))
+		if err := checkConc(c); err != nil {
+			if strings.HasPrefix(err.Error(), "infra:") {
+				rt.Fatalf("%v", err)
+			}
+			r.Fail(rt, "TestConcurrentSenders", c, "%v", err)
 		}
 	})
 }
